@@ -427,7 +427,106 @@ def check(run):
     for c, o, ch in res:
         run.count('run_' + str(o['run'][0] if o['run'] else None))
         run.count('error_' + str(o['error'][0] if o['error'] else None))
+    check_stop_during_async_init(run)
+
+
+def check_stop_during_async_init(run, only=None):
+    """'... always terminates the simulation', 'a cancellation counts as a normal stop': a stop request
+    or an error that arrives while the simulator is still waiting for init_async routines (two slow
+    ones, 300 and 500 ms) takes effect at once - it does not wait for the routines, and a cancellation
+    is not lost."""
+    for how in ('abort', 'shutdown', 'cancel_run', 'handler'):
+        if only is not None and how != only:
+            continue
+        obs = dict(run=None, t_end_ms=None, error=None, ready=None, wait_init=None, harness=None)
+
+        async def main(loop, how=how, obs=obs):
+            edzed.reset_circuit()
+            circuit = edzed.get_circuit()
+
+            class Slow(edzed.AddonAsync, edzed.SBlock):
+                def __init__(self, *args, delay, **kwargs):
+                    self._delay = delay
+                    super().__init__(*args, **kwargs)
+
+                async def init_async(self):
+                    await asyncio.sleep(self._delay)
+                    self.set_output(1)
+
+            class HP(edzed.SBlock):
+                def init_regular(self):
+                    self.set_output(0)
+
+                def _event_boom(self, **_d):
+                    raise Tagged(7)
+            Slow('slow1', delay=0.3, init_timeout=2.0)
+            Slow('slow2', delay=0.5, init_timeout=2.0)
+            hp = HP('hp')
+            run_task = asyncio.create_task(edzed.run(catch_sigterm=False))
+
+            async def waiter():
+                try:
+                    await circuit.wait_init()
+                    obs['wait_init'] = 'returned'
+                except BaseException as err:          # noqa
+                    obs['wait_init'] = type(err).__name__
+            wtask = asyncio.create_task(waiter())
+            await asyncio.sleep(0.05)
+            t0 = loop.vt_us
+            if how == 'abort':
+                circuit.abort(Tagged(7))
+            elif how == 'shutdown':
+                asyncio.create_task(circuit.shutdown())
+            elif how == 'cancel_run':
+                run_task.cancel()
+            else:
+                try:
+                    hp.event('boom')
+                except Tagged:
+                    pass
+            done, _ = await asyncio.wait([run_task], timeout=5.0)
+            obs['t_end_ms'] = (loop.vt_us - t0) // 1000
+            if not done:
+                obs['run'] = 'still running'
+                run_task.cancel()
+            elif run_task.cancelled():
+                obs['run'] = 'cancelled'
+            elif run_task.exception() is not None:
+                obs['run'] = ['raises', tag_of(run_task.exception())]
+            else:
+                obs['run'] = ['returns', run_task.result()]
+            await asyncio.wait([wtask], timeout=1.0)
+            err = circuit.error
+            obs['error'] = None if err is None else ('cancel' if isinstance(err, asyncio.CancelledError)
+                                                     else ['exc', tag_of(err)])
+            obs['ready'] = circuit.is_ready()
+        try:
+            vloop.run_virtual(main, wall_limit_s=10.0)
+        except BaseException as err:                   # noqa
+            obs['harness'] = repr(err)[:200]
+        finally:
+            edzed.reset_circuit()
+        run.add_case(dict(stop_during_async_init=how), True)
+        run.count('stop_during_async_init')
+        want_run = {'abort': ['raises', 7], 'handler': ['raises', 7], 'shutdown': ['returns', None],
+                    'cancel_run': ['returns', None]}[how]
+        want_err = ['exc', 7] if how in ('abort', 'handler') else 'cancel'
+        ok = (obs['harness'] is None and obs['run'] == want_run and obs['error'] == want_err
+              and obs['ready'] is False and obs['t_end_ms'] is not None and obs['t_end_ms'] < 100
+              and obs['wait_init'] == 'EdzedInvalidState')
+        run.add_obligation(ok)
+        if not ok:
+            run.violation('monitor', dict(case=dict(stop_during_async_init=how), observed=obs),
+                          f"'{how}' 50 ms after the start, while two init_async routines (300/500 ms) are running: "
+                          f"run() -> {obs['run']} after {obs['t_end_ms']} ms (expected {want_run} within 100 ms), "
+                          f"Circuit.error={obs['error']} (expected {want_err}), is_ready()={obs['ready']}, "
+                          f"wait_init() -> {obs['wait_init']}; harness: {obs['harness']}",
+                          clause='stop_during_async_init:' + how, concrete=True)
 
 
 def replay(run, path):
+    _, case = common.load_replay_case(path)
+    if isinstance(case, dict) and 'stop_during_async_init' in case:
+        return common.directed_replay(run, path,
+                                      lambda: check_stop_during_async_init(run, case['stop_during_async_init']))
     return common.std_replay(run, C09(), path)
